@@ -15,6 +15,8 @@ Groups
               pf.categories['c'] <= max count of all files, and a categorical column read has no more labels than
               announced.  (Files whose dictionaries are not prefixes of the dictionary read last: known finding,
               feature dictionary_conflict.)
+  c14.fetch   footer-gathering path: one file's footer length swept through int(1.4 * H0) - 12 .. + 12 around the size of the
+              first tail fetch (k in {3, 4} files, padded file second / last): the dataset opens and reads back as the concatenation.
   c14.verify  files whose schemas differ (dtype / extra column / renamed column / column order / only the logical or
               converted-type annotation or the repetition of one column: tz-aware vs naive, unit, str vs bytes, ...) must be rejected by
               ParquetFile(paths, verify=True), ParquetFile(dir, verify=True) and merge(paths) (verify_schema=True).
@@ -388,6 +390,50 @@ def check_verify(fastparquet, spec):
         return f"files with differing schemas ({spec['mismatch']} in file {spec['odd']}) were accepted"
     finally:
         _shutil.rmtree(d, ignore_errors=True)
+
+
+def _footer_len(path):
+    with open(path, "rb") as f:
+        f.seek(-8, 2)
+        return int.from_bytes(f.read(4), "little")
+
+
+def check_fetch(fastparquet, spec):
+    """k >= 3 single files opened as a list (footer-gathering path): the footer length of file `pos` is set to
+    int(1.4 * H0) + delta (H0 = footer length of the first file) by padding a custom_metadata value, delta in [-12, 12]:
+    the tail fetch of int(1.4 * H0) bytes covers the footer + 8 trailer bytes only for delta <= -8; beyond that the file
+    must be re-fetched.  The dataset must open and read back as the concatenation, and keep file `pos`'s padded value out of the way."""
+    root = _tempfile.mkdtemp(prefix="c14f-")
+    try:
+        k, pos, delta = spec["k"], spec["pos"], spec["delta"]
+        frames = [pd.DataFrame({"id": np.arange(3, dtype="int64") + 10 * i, "s": [f"v{i}a", f"v{i}b", f"v{i}c"]}) for i in range(k)]
+        paths = [_os.path.join(root, f"f{i}.parquet") for i in range(k)]
+        for p, df in zip(paths, frames):
+            fastparquet.write(p, df, custom_metadata={"pad": "x"})
+        target = int(1.4 * _footer_len(paths[0])) + delta
+        n = 1
+        for _ in range(6):        # the varint length prefix of the value may grow by a byte: adjust until the footer has the target length
+            got = _footer_len(paths[pos])
+            if got == target:
+                break
+            n += target - got
+            if n < 0:
+                return None       # not reachable by padding (never the case for real footers)
+            fastparquet.write(paths[pos], frames[pos], custom_metadata={"pad": "x" * n})
+        if _footer_len(paths[pos]) != target:
+            return None
+        pf = fastparquet.ParquetFile(paths)
+        got = pf.to_pandas()
+        want = pd.concat(frames, ignore_index=True)
+        if list(got["id"]) != list(want["id"]) or list(got["s"]) != list(want["s"]):
+            return f"rows differ from the concatenation: {list(got['id'])}"
+        if pf.count() != len(want):
+            return f"count {pf.count()} != {len(want)}"
+        return None
+    finally:
+        _shutil.rmtree(root, ignore_errors=True)
+
+
 # <<< SNIPPET-CORE
 
 
@@ -515,6 +561,13 @@ def enumerate_verify(tier):
                     yield {"mismatch": m, "k": k, "odd": odd, "open": op}
 
 
+def enumerate_fetch(tier):
+    for k in (3, 4):
+        for pos in sorted({1, k - 1}):
+            for delta in range(-12, 13):
+                yield {"k": k, "pos": pos, "delta": delta}
+
+
 def _worker_main():
     """child process (plain `python -m runtime.c14_many_files`, PYTHONHASHSEED=0): jobs (JSON list of [index, spec]) on
     stdin; a line `B <i>` before and `E <i> <json what>` after every case, so that the parent can tell which case was
@@ -526,7 +579,7 @@ def _worker_main():
         out.write(f"\nB {i}\n")
         out.flush()
         try:
-            what = check_many(fp, spec[1]) if spec[0] == "concat" else check_verify(fp, spec[1])
+            what = check_many(fp, spec[1]) if spec[0] == "concat" else check_fetch(fp, spec[1]) if spec[0] == "fetch" else check_verify(fp, spec[1])
         except BaseException as e:      # noqa: any escape = failed contract (reported by the parent)
             tb = traceback.extract_tb(e.__traceback__)
             at = f"{os.path.basename(tb[-1].filename)}:{tb[-1].lineno} {tb[-1].name}" if tb else "?"
@@ -579,7 +632,7 @@ def run_jobs(jobs, nproc):
 
 def run_bounded(ctx):
     import_fastparquet()
-    GC, GV = "c14.concat", "c14.verify"
+    GC, GV, GF = "c14.concat", "c14.verify", "c14.fetch"
     ctx.bounded_group(GC, rule="1..4 elements (single files; hive sub-datasets partitioned on p) with columns int64 id, "
                       "float64+NaN, str+None, categorical; shapes flat / flat with part.<n> names whose given order (2,10,9,100) is neither "
                       "the lexicographic order nor its reverse / k=v / a=v/b=w / u/x (drill) / sub-datasets; rows per "
@@ -597,9 +650,14 @@ def run_bounded(ctx):
                       "lists really differ is checked with the independent IDL footer decoder - x 2..4 files x differing "
                       "file first/middle/last (= both file orders) x {ParquetFile(list, verify=True), "
                       "ParquetFile(dir, verify=True), merge(paths), merge(ParquetFile objects)}: must raise")
+    ctx.bounded_group(GF, rule="footer-gathering path (ParquetFile(list of k >= 3 single files)): the footer length of one later file swept "
+                      "through int(1.4 * H0) - 12 .. int(1.4 * H0) + 12 (H0 = footer length of the first file; padded custom_metadata value) - "
+                      "around the point where the first tail fetch stops covering footer + length field + magic; k in {3, 4} x padded file second / "
+                      "last x 25 lengths: opens, rows == concatenation, count()  (a worker killed by a signal is a failed case)")
     concat = list(enumerate_concat(ctx.tier))
     verify = list(enumerate_verify(ctx.tier))
-    jobs = [("concat", s) for s in concat] + [("verify", s) for s in verify]
+    fetch = list(enumerate_fetch(ctx.tier))
+    jobs = [("concat", s) for s in concat] + [("verify", s) for s in verify] + [("fetch", s) for s in fetch]
     ncpu = os.cpu_count() or 2
     results = run_jobs(jobs, max(2, min(12, ncpu - 4)))
     skipped = sum(1 for w in results if w == NOT_EVALUATED)
@@ -614,6 +672,12 @@ def run_bounded(ctx):
                       nontrivial=F["nonempty_files"] > 0,
                       contract="rows == concatenation of the files' rows in the given order; count(); partition columns "
                                "from directory names; categorical label of every row as in its file") as c:
+                if what:
+                    c.fail(what)
+        elif kind == "fetch":
+            F = {"files": spec["k"], "padded_file": spec["pos"], "footer_len_minus_first_fetch": spec["delta"]}
+            with Case(ctx, GF, F, snippet=snippet(f"check_fetch(fastparquet, {spec!r})"),
+                      contract="a list of >= 3 files opens and reads back as the concatenation whatever the footer lengths are") as c:
                 if what:
                     c.fail(what)
         else:
